@@ -22,7 +22,7 @@ IdxsQ == <<0, 1, -1, -2, 5>>
 SeqSet(s) == {s[i] : i \in 1..Len(s)}
 O3x(va, vb, vc) == Obj({<<cA, va>>, <<cB, vb>>, <<cC, vc>>})
 SliceOf(x, a, b, c) == Proj(IdxE(x, SliceN(a, b, c)), Identity)
-C1(name, a) == Call1(name, a)
+C1(name, a) == IF name = "nosuchfn" THEN Fn(<<110, 111, 115, 117, 99, 104>>, <<a>>) ELSE Call1(name, a)
 C2(name, a, b) == Call2(name, a, b)
 ErrAbs == C1("abs", LitA)                       \* abs('a'): invalid type, always an error
 ErrUnknown == Fn(<<110, 111, 115, 117, 99, 104>>, <<Current>>)   \* nosuch(@)
@@ -323,6 +323,27 @@ RoVals == {A3(I(3), I(1), I(2)), A3(S(cB), S(cAB), S(cA)), A3(I(3), S(cA), I(1))
            A2(O2(cA, I(2), cB, I(1)), O1(cA, S(cA))), A3(I(2), Null, I(1))}
 DocsRo == {O2(cA, x, cB, y) : x \in RoVals, y \in RoVals} \cup RoVals
 
+(* ---------------- C15: pipe law, referential transparency -------------------------------------- *)
+MetaL1 == SetToSeq({fA, fB, fC, IdxI(0), IdxI(-1), Current, Lit(I(1)), LitA, Lit(Null), Lit(A2(I(1), S(cB))), Lit(O1(cA, I(1))),
+                    Sub(fA, fA), Sub(fA, fB), IdxL(fB, 0), IdxL(fB, -1), Pipe(fB, IdxI(1)), MSL(<<fA, fB>>), MSH(<<KV(cA, fB), KV(cB, fA)>>),
+                    Proj(fB, Identity), Proj(fB, fA), Proj(Flat(fB), Identity), Filt(fB, Identity, fA), Filt(fB, fA, Cmp("gt", fA, Lit(I(1)))),
+                    VProj(fA, Identity), VProj(Identity, fA), SliceOf(fB, IntP(1), NoneP, NoneP), SliceOf(fB, NoneP, NoneP, IntP(-1)),
+                    C1("length", fB), C1("keys", fA), C1("sort", fB), C1("type", fA), C1("to_string", fA), C1("to_array", fA), C1("abs", fA), C1("max", fB),
+                    C2("sort_by", fB, Ref(fA)), C2("max_by", fB, Ref(fA)), C2("map", Ref(fA), fB), C2("merge", fA, Lit(O1(cB, I(2)))), C2("contains", fB, Lit(I(1))),
+                    C2("join", Lit(S(<<44>>)), fB), Or(fA, fB), And(fA, fB), Not(fA), Cmp("eq", fA, fB), Cmp("lt", fA, Lit(I(2))), ErrAbs, C1("nosuchfn", fA)})
+MetaOps == <<fA, fB, Lit(I(1)), Lit(Null), Current, IdxI(0)>>
+MetaNS == 24
+MetaDim(s) == IF s \in {1, 2, 3, 4, 5, 6, 9, 10, 15, 17} THEN Len(MetaOps) ELSE 1
+(* contexts whose hole is evaluated against the same current node as the context itself *)
+MetaWrap(s, x, k) ==
+  LET r == MetaOps[k] IN
+  CASE s = 1 -> Or(x, r) [] s = 2 -> Or(r, x) [] s = 3 -> And(x, r) [] s = 4 -> And(r, x)
+    [] s = 5 -> Cmp("eq", x, r) [] s = 6 -> Cmp("lte", r, x) [] s = 7 -> Not(x) [] s = 8 -> MSL(<<x>>)
+    [] s = 9 -> MSL(<<r, x>>) [] s = 10 -> MSH(<<KV(cA, x), KV(cB, r)>>) [] s = 11 -> C1("to_array", x) [] s = 12 -> C1("type", x)
+    [] s = 13 -> C2("not_null", x, fA) [] s = 14 -> C2("contains", x, Lit(I(1))) [] s = 15 -> Pipe(x, r) [] s = 16 -> Sub(x, fA)
+    [] s = 17 -> IdxL(x, <<0, -1, 1, 0, 0, 0>>[k]) [] s = 18 -> Proj(x, fA) [] s = 19 -> Proj(Flat(x), Identity) [] s = 20 -> Filt(x, Identity, fA)
+    [] s = 21 -> VProj(x, Identity) [] s = 22 -> SliceOf(x, IntP(1), NoneP, NoneP) [] s = 23 -> C1("length", x) [] s = 24 -> C2("merge", x, Lit(O1(cC, I(3))))
+
 (* ---------------- C08: slices ------------------------------------------------------------- *)
 (* parameters: absent, the window [-L-2, L+2], and huge magnitudes of both signs *)
 SlL == IF Thorough THEN 6 ELSE 4
@@ -372,18 +393,18 @@ DocsPrec == {
 L1 == CASE Family = "C01" -> CoreL1 [] Family = "C03" -> PrecL1 [] Family = "C02" -> ProjL1 [] Family = "C07" -> OpL1 [] Family = "C07d" -> OpDocL1
         [] Family = "C09" -> FnL1 [] Family = "C09n" -> FnNestL1 [] Family = "C10" -> <<>> [] Family = "C10d" -> MxDocL1
         [] Family = "C10k" -> ByL1 [] Family = "C11" -> ErrL1 [] Family = "C16" -> JsonL1
-        [] Family = "C08" -> <<>> [] Family = "C08i" -> SlIdxL1 [] Family = "C06" -> RoL1
-NS == CASE Family = "C01" -> CoreNS [] Family = "C03" -> PrecNS [] Family = "C06" -> RoNS [] Family = "C02" -> ProjNS [] Family = "C07" -> OpNS [] Family = "C09" -> FnNS
+        [] Family = "C08" -> <<>> [] Family = "C08i" -> SlIdxL1 [] Family = "C06" -> RoL1 [] Family = "C15" -> MetaL1
+NS == CASE Family = "C01" -> CoreNS [] Family = "C03" -> PrecNS [] Family = "C06" -> RoNS [] Family = "C15" -> MetaNS [] Family = "C02" -> ProjNS [] Family = "C07" -> OpNS [] Family = "C09" -> FnNS
         [] Family = "C09n" -> FnNestNS [] Family = "C11" -> CtxNS [] OTHER -> 0
-Dim(s) == CASE Family = "C01" -> CoreDim(s) [] Family = "C03" -> PrecDim(s) [] Family = "C06" -> RoDim(s) [] Family = "C02" -> ProjDim(s) [] Family = "C07" -> OpDim(s) [] Family = "C09" -> FnDim(s)
+Dim(s) == CASE Family = "C01" -> CoreDim(s) [] Family = "C03" -> PrecDim(s) [] Family = "C06" -> RoDim(s) [] Family = "C15" -> MetaDim(s) [] Family = "C02" -> ProjDim(s) [] Family = "C07" -> OpDim(s) [] Family = "C09" -> FnDim(s)
             [] Family = "C09n" -> FnNestDim(s) [] Family = "C11" -> CtxDim(s)
-Wrap(s, x, k) == CASE Family = "C01" -> CoreWrap(s, x, k) [] Family = "C03" -> PrecWrap(s, x, k) [] Family = "C06" -> RoWrap(s, x, k) [] Family = "C02" -> ProjWrap(s, x, k) [] Family = "C07" -> OpWrap(s, x, k)
+Wrap(s, x, k) == CASE Family = "C01" -> CoreWrap(s, x, k) [] Family = "C03" -> PrecWrap(s, x, k) [] Family = "C06" -> RoWrap(s, x, k) [] Family = "C15" -> MetaWrap(s, x, k) [] Family = "C02" -> ProjWrap(s, x, k) [] Family = "C07" -> OpWrap(s, x, k)
                    [] Family = "C09" -> FnWrap(s, x, k) [] Family = "C09n" -> FnNestWrap(s, x, k) [] Family = "C11" -> CtxWrap(s, x, k)
 DocSet == CASE Family = "C01" -> DocsCore [] Family = "C03" -> DocsPrec [] Family = "C02" -> DocsProj [] Family \in {"C07", "C09", "C10", "C10k"} -> {Null}
             [] Family = "C07d" -> DocsOp [] Family = "C09n" -> DocsFnNest [] Family = "C10d" -> DocsMx [] Family = "C11" -> DocsCtx
-            [] Family = "C16" -> DocsJson [] Family \in {"C08", "C08i"} -> DocsSlice [] Family = "C06" -> DocsRo
+            [] Family = "C16" -> DocsJson [] Family \in {"C08", "C08i"} -> DocsSlice [] Family = "C06" -> DocsRo [] Family = "C15" -> DocsFnNest \cup DocsCtx
 (* number of wrapping levels: 1 = only L1; 2 = one Wrap; 3 = two nested Wraps *)
-Levels == CASE Family \in {"C07d", "C10d", "C10k", "C16", "C08i"} -> 1 [] Family = "C08" -> 0 [] Family \in {"C01", "C07", "C11", "C03"} -> 3 [] Family = "C10" -> 0 [] OTHER -> 2
+Levels == CASE Family \in {"C07d", "C10d", "C10k", "C16", "C08i"} -> 1 [] Family = "C08" -> 0 [] Family \in {"C01", "C07", "C11", "C03", "C15"} -> 3 [] Family = "C10" -> 0 [] OTHER -> 2
 EmitL1 == Family \notin {"C09"}
 Styles == <<StMin, StFull, StQuoted>>
 WsOf(k) == CASE k = 1 -> "tight" [] k = 2 -> "space" [] k = 3 -> "mixed"
@@ -417,6 +438,15 @@ Prog(lo, hi, step, off) == IF lo + off >= hi THEN <<>> ELSE [m \in 1..(((hi - lo
 (* the indices handled by shard sh of n: levels 1-2 thinned by stride st, level 3 by stride st3 (seeded slices) *)
 MineSeq(g, sh, n, st, st3, seed) ==
   Prog(0, g.t1 + g.t2, n * st, n * (seed % st) + sh) \o Prog(g.t1 + g.t2, g.total, n * st3, n * (seed % st3) + sh)
+(* the context of an index-decoded expression (same decoding with the L1 element replaced by the hole) and its base *)
+CtxAt(gg, i) ==
+  IF i < gg.t1 THEN Hole
+  ELSE IF i < gg.t1 + gg.t2 THEN WrapCode(gg, (i - gg.t1) % gg.sum, Hole)
+  ELSE LET o == (i - gg.t1 - gg.t2) % (gg.sum * gg.sum) IN WrapCode(gg, o % gg.sum, WrapCode(gg, o \div gg.sum, Hole))
+BaseAt(gg, i) ==
+  IF i < gg.t1 THEN gg.l1[i + 1]
+  ELSE IF i < gg.t1 + gg.t2 THEN gg.l1[((i - gg.t1) \div gg.sum) + 1]
+  ELSE gg.l1[((i - gg.t1 - gg.t2) \div (gg.sum * gg.sum)) + 1]
 (* level of index i: 1, 2 or 3 *)
 LevelOf(g, i) == IF i < g.t1 THEN 1 ELSE IF i < g.t1 + g.t2 THEN 2 ELSE 3
 =============================================================================
